@@ -107,6 +107,75 @@ def set_history_cases(rng, _n):
     return cases
 
 
+def set_size_boundary_cases(rng, _n):
+    """Set patterns on collections whose SIZE sits on a machine boundary (31-33, 63-65, 127-129, 255-257 elements): a needed
+    match at the first, the last and the word-boundary positions, with `..`; an implementation that keeps per-element state in a
+    machine word (bit masks, small-set fast paths) is wrong exactly here and nowhere else."""
+    import tgen
+    cases = []
+    k = 0
+    for n in (31, 32, 33, 63, 64, 65, 127, 128, 129, 255, 256, 257):
+        vals = list(range(n))
+        pats = [("#(== %d, ..)" % (n - 1), [n - 1]), ("#(== 0, ..)", [0]), ("#(>= %d, >= %d, ..)" % (n - 2, n - 1), [n - 2, n - 1]),
+                ("#(== %d, ..)" % n, [n]), ("#(>= %d, >= %d, ..)" % (n - 1, n - 1), [n - 1]),
+                ("#(== %d, == %d, ..)" % (n - 1, (n - 1) // 2), [n - 1, (n - 1) // 2])]
+        if n >= 65:
+            pats.append(("#(== 64, ..)", [64]))
+            pats.append(("#(== 63, == 64, ..)", [63, 64]))
+        for pat, lits in pats:
+            c = t3.Case()
+            c.id = k
+            k += 1
+            c.forms = {"set-size-boundary": 1}
+            c.perturbed = False
+            c.meanings = "(meanings %s)" % " ".join("(v %s (int %d))" % (tgen.hexs(str(v)), v) for v in sorted(set(lits)))
+            t3.finish_case(c, "", "Vec<i32>", "vec![%s]" % ", ".join("%di32" % x for x in vals), "(seq %s)" % " ".join("(int %d)" % x for x in vals), pat)
+            cases.append(c)
+    return cases
+
+
+def repeated_leaf_text_cases(rng, _n):
+    """Sibling sub-patterns with TEXTUALLY IDENTICAL leaves (`"a": > 5, "b": > 5`; `(> 5, > 5)`; `[1, 1, 1]`): the first, a later
+    one, or both fail. Each leaf is a sub-pattern of its own (own node, own location, own entry); anything keyed by the leaf's text
+    (memo tables, de-duplication) confuses them only here."""
+    import tgen
+    cases = []
+    k = 0
+    leaves = [("> 5", [("5", 5)], lambda x: x > 5), ("1", [("1", 1)], lambda x: x == 1), ("== 7", [("7", 7)], lambda x: x == 7),
+              ("2..=4", [("2", 2), ("4", 4)], lambda x: 2 <= x <= 4), ("!= 0", [("0", 0)], lambda x: x != 0)]
+    for leaf, lits, ok in leaves:
+        good = next(x for x in (9, 1, 7, 3) if ok(x))
+        bad = next(x for x in (0, 5, 8, 1) if not ok(x))
+        for n in (2, 3):
+            for mask in range(1 << n):
+                vals = [bad if (mask >> i) & 1 else good for i in range(n)]
+                keys = ["a", "b", "c"][:n]
+                shapes = [
+                    ("BTreeMap<String, i32>", "BTreeMap::<String, i32>::from([%s])" % ", ".join('("%s".to_string(), %d)' % (kk, v) for kk, v in zip(keys, vals)),
+                     "(map (keys %s) (vals %s))" % (" ".join("(str %s)" % tgen.hexs(kk) for kk in keys), " ".join("(int %d)" % v for v in vals)),
+                     "#{ %s }" % ", ".join('"%s": %s' % (kk, leaf) for kk in keys), [('"%s"' % kk, "(str %s)" % tgen.hexs(kk)) for kk in keys]),
+                    ("(%s)" % ", ".join(["i32"] * n), "(%s)" % ", ".join("%di32" % v for v in vals), "(tuple %s)" % " ".join("(int %d)" % v for v in vals),
+                     "(%s)" % ", ".join([leaf] * n), []),
+                    ("Vec<i32>", "vec![%s]" % ", ".join("%di32" % v for v in vals), "(seq %s)" % " ".join("(int %d)" % v for v in vals),
+                     "[%s]" % ", ".join([leaf] * n), []),
+                    ("Option<(%s)>" % ", ".join(["i32"] * n), "Some((%s))" % ", ".join("%di32" % v for v in vals),
+                     "(variant %s (tuple %s))" % (tgen.hexs("Some"), " ".join("(int %d)" % v for v in vals)) if False else None,
+                     "Some((%s))" % ", ".join([leaf] * n), []),
+                ]
+                for ty, vt, sx, pat, extra in shapes:
+                    if sx is None:
+                        continue
+                    c = t3.Case()
+                    c.id = k
+                    k += 1
+                    c.forms = {"repeated-leaf-text": 1}
+                    c.perturbed = mask != 0
+                    c.meanings = "(meanings %s)" % " ".join(["(v %s (int %d))" % (tgen.hexs(t), v) for t, v in lits] + ["(v %s %s)" % (tgen.hexs(t), v) for t, v in extra])
+                    t3.finish_case(c, "", ty, vt, sx, pat)
+                    cases.append(c)
+    return cases
+
+
 def map_wild_cases(rng, _n):
     """Map patterns whose value pattern is the wildcard: `"k": _` still requires the key."""
     import tgen
@@ -751,6 +820,8 @@ def check(ck, aspect, theorems, t2_parts=("body", "status")):
                                 ("range-boundary", range_boundary_cases, "integer and float ranges against values at and next to every bound"),
                                 ("light-composite-siblings", light_composite_cases, "composites that generate little or no code (`#()`, `#(..)`, `[]`, `#{..}`, `(_, _)`, `_`) before and after failing siblings"),
                                 ("long-non-ascii-values", long_value_cases, "elements with long non-ASCII Debug texts rejected by set probes on the passing path, and failing a leaf"),
+                                ("repeated-leaf-text", repeated_leaf_text_cases, "sibling sub-patterns with textually identical leaves in maps / tuples / slices: the first, a later one or both fail"),
+                                ("set-size-boundary", set_size_boundary_cases, "set patterns on collections of 31-33, 63-65, 127-129, 255-257 elements: needed matches at the first, last and word-boundary positions"),
                                 ("c10-macro", set_palette_cases, "set patterns from a palette of element patterns over every listed order of small collections")):
         fam = t3.run_corpus(ck, name, 0, per_bin=40, positions=maker)
         stats, mism = t3.compare(ck, fam, name)
